@@ -17,8 +17,17 @@ MSG = re.compile(r"P\|S\d+\|\d+\|[A-Za-z]+\d*")
 
 
 def _msg(text):
-    m = MSG.search(text or "")
-    return m.group(0) if m else ""
+    """why a step / hook failed, as the report states it: the panic message token, or the kind of
+    a failure without payload (ambiguous match, no matching definition)"""
+    text = text or ""
+    m = MSG.search(text)
+    if m:
+        return m.group(0)
+    if "Step match is ambiguous" in text:
+        return "ambiguous"
+    if "Step doesn't match any function" in text:
+        return "notfound"
+    return ""
 # decoration appended by the harness to every name / step text of a "decorated" universe
 DECORS = [" \"q\" <&> ]]> \u00e9\u4e16 'a' \\n", " \"q\" <&> \u00e9\u4e16 'a' \\n"]
 STATUS_MARK = {"✔": "passed", "?": "skipped", "✘": "failed"}
@@ -160,9 +169,16 @@ def parse_json(text, tables):
                     facts.append(["perr", "", 0, "failed", ""])
                 continue
             for s in el.get("steps", []):
-                stt = st.get(s["result"]["status"], s["result"]["status"])
-                facts.append(["step", scen, _idx(tables, scen, s.get("name", "")), stt,
-                              _msg(s["result"].get("error_message", "")) if stt == "failed" else ""])
+                raw = s["result"]["status"]
+                stt = st.get(raw, raw)
+                why = ""
+                if stt == "failed":
+                    # the Cucumber JSON status names the kind of failure
+                    why = {"ambiguous": "ambiguous", "undefined": "notfound"}.get(
+                        raw, _msg(s["result"].get("error_message", "")))
+                    if raw == "failed" and why in ("ambiguous", "notfound"):
+                        why = "failed-status-for-" + why
+                facts.append(["step", scen, _idx(tables, scen, s.get("name", "")), stt, why])
             for h, key in (("before", -1), ("after", -2)):
                 for r in el.get(h, []):
                     if r["result"]["status"] == "failed":
